@@ -232,17 +232,16 @@ theorem dict_to_tree_exact (c : Char) (dupOk : Bool) (items : List Item) (hwf : 
   exact ⟨h2, h3, nodup_paths t h1, h4, h5⟩
 
 /-- `dataframe_to_tree` / `polars_to_tree` on well-formed paths (rows that pass the
-    duplicate-attribute check), both duplicate settings. The loop runs under the default separator
-    `/` (the root's separator is assigned afterwards), so with duplicates disallowed the names
-    must not contain `/` either. -/
-theorem rows_to_tree_exact (c : Char) (dupOk : Bool) (items : List Item) (hwf : ∀ it ∈ items, it.Wf c)
-    (hslash : dupOk = false → ∀ it ∈ items, ∀ x ∈ it.branch, '/' ∉ x) (t : Tree)
+    duplicate-attribute check), both duplicate settings. Since repair D11 (the root's separator is
+    assigned BEFORE the loop) no condition on `/` inside names is needed any more: the statement
+    is the same as for `list_to_tree` and `dict_to_tree`. -/
+theorem rows_to_tree_exact (c : Char) (dupOk : Bool) (items : List Item) (hwf : ∀ it ∈ items, it.Wf c) (t : Tree)
     (h : rowsToTree [c] dupOk (items.map fun it => (it.render c, it.attrs)) = .ok t) :
     (firstSeen (items.map (·.branch))).Nodup ∧
     (∀ q, q ∈ paths t ↔ q ∈ firstSeen (items.map (·.branch))) ∧ (paths t).Nodup ∧
     (∀ b n, nodeAt b t = some n → (kidPaths (namesAlong b t) n).Sublist (firstSeen (items.map (·.branch)))) ∧
     (dupOk = false → (names t).Nodup) := by
-  obtain ⟨h1, h2, h3, h4, h5⟩ := rowsToTree_spec c dupOk items hwf hslash t h
+  obtain ⟨h1, h2, h3, h4, h5⟩ := rowsToTree_spec c dupOk items hwf t h
   exact ⟨h2, h3, nodup_paths t h1, h4, h5⟩
 
 example : dictToTree ['.'] true [("a.c".toList, [(['v'], .int 1)]), (".a.b.".toList, []), ("a".toList, [(['w'], .null)])] =
